@@ -419,6 +419,8 @@ def _zb(o):
 
 
 class SArrayBase:
+    __array_ufunc__ = None  # numpy scalars defer to the reflected operators of the shim arrays
+    __array_priority__ = 1000
     pass
 
 
@@ -640,12 +642,17 @@ def sdiv(x, y):
                     q = Fraction(x) / v
                 res = ite(y == v, q, res)
             return res
+    if DIV_HOOK[0] is not None:
+        DIV_HOOK[0](x, y)
     a, b = _coerce(x, y)
     if z3.is_int(a):
         a = z3.ToReal(a)
     if z3.is_int(b):
         b = z3.ToReal(b)
     return wrap(a / b)
+
+
+DIV_HOOK = [None]  # optional callable(x, y) run before a division by a symbolic (non-table) denominator
 
 
 def sdiv_floor(x, y):
@@ -809,6 +816,25 @@ def nice_model(ctx, extra, inputs, prefer=()):
         m = nice_model(ctx, list(extra) + list(prefer), inputs)
         if m is not None:
             return m
+        # not all at once: keep greedily every preference that is compatible with the ones kept so far
+        kept = []
+        for p in list(prefer)[:80]:
+            ctx.solver.push()
+            try:
+                for e in list(extra) + kept + [p]:
+                    ctx.solver.add(e)
+                t = time.time()
+                r = ctx.solver.check()
+                ctx.tq += time.time() - t
+                ctx.nq += 1
+            finally:
+                ctx.solver.pop()
+            if r == z3.sat:
+                kept.append(p)
+        if kept:
+            m = nice_model(ctx, list(extra) + kept, inputs)
+            if m is not None:
+                return m
     s = ctx.solver
     reals = [c for c in collect_reals(inputs).values() if z3.is_real(c)]
     for den, bound in ((1, 64), (8, 64), (64, 1024), (8, 2 ** 25)):
